@@ -147,7 +147,11 @@ def digest(b):
 class ImplWorld:
     """One temp folder holding pak01_dir.vpk (+ numbered archives) or pak01.vpk (single)."""
 
-    def __init__(self, single):
+    def __init__(self, single, forms=None):
+        # forms: how the (same) arguments are handed over — {'path': 'str'|'Path'|'PathLike', 'mode': 'str'|'enum',
+        # 'data': 'bytes'|'bytearray' (mutated by the caller after the call), 'names': 'tuple'|'list', 'pos': bool}
+        self.forms = forms or {}
+        self.form_fail = None
         self.single = single
         self.dir = tempfile.mkdtemp(prefix='c13_')
         self.path = os.path.join(self.dir, 'pak01.vpk' if single else 'pak01_dir.vpk')
@@ -155,6 +159,49 @@ class ImplWorld:
 
     def close(self):
         shutil.rmtree(self.dir, ignore_errors=True)
+
+    # ---- argument forms (the denoted value is the same; see p_c13._argforms_property for what is accepted as coded)
+    def _path_arg(self):
+        f = self.forms.get('path', 'str')
+        if f == 'Path':
+            import pathlib
+            return pathlib.Path(self.path)
+        if f == 'PathLike':
+            class _P:
+                def __init__(s, p): s.p = p
+                def __fspath__(s): return s.p
+            return _P(self.path)
+        return self.path
+
+    def _mode_arg(self, m):
+        if self.forms.get('mode') == 'enum':
+            from srctools.vpk import OpenModes
+            return OpenModes(m)
+        return m
+
+    def _name_arg(self, name):
+        n = py_name(name)
+        if self.forms.get('names') == 'list' and not isinstance(n, str):
+            return list(n)
+        return n
+
+    def _data_arg(self, data):
+        """(argument, callback run after the call): a bytearray is checked to be unchanged by the callee and is then
+        overwritten by the caller — the archive must keep the bytes as they were at call time."""
+        if self.forms.get('data') != 'bytearray':
+            return data, (lambda: None)
+        ba = bytearray(data)
+
+        def after():
+            if bytes(ba) != data:
+                self.form_fail = 'the callee changed the bytearray passed as data'
+            for k in range(len(ba)):
+                ba[k] ^= 0xA5
+        return ba, after
+
+    def _unchanged(self, snap, obj, what):
+        if repr(obj) != snap:
+            self.form_fail = f'the {what} argument was changed by the call: {snap} -> {obj!r}'
 
     def __enter__(self):
         return self
@@ -223,7 +270,7 @@ class ImplWorld:
         if kind == 'open':
             self.vpk = None
             try:
-                v = VPK(self.path, mode=op[1], dir_data_limit=op[2])
+                v = VPK(self._path_arg(), mode=self._mode_arg(op[1]), dir_data_limit=op[2])
                 self.vpk = v.__enter__()
                 if self.vpk is not v:
                     return 'enter-not-self'
@@ -242,13 +289,41 @@ class ImplWorld:
             return 'nohandle'
         try:
             if kind == 'new':
-                v.new_file(py_name(op[1]))
+                nm = self._name_arg(op[1]); snap = repr(nm)
+                if self.forms.get('pos'):
+                    v.new_file(nm, '')
+                else:
+                    v.new_file(nm)
+                self._unchanged(snap, nm, 'name')
             elif kind == 'add':
-                v.add_file(py_name(op[1]), data_of(op[2]), arch_index=op[3])
+                nm = self._name_arg(op[1]); snap = repr(nm)
+                data, after = self._data_arg(data_of(op[2]))
+                try:
+                    if self.forms.get('pos'):
+                        v.add_file(nm, data, '', op[3])
+                    else:
+                        v.add_file(nm, data, arch_index=op[3])
+                finally:
+                    after()
+                self._unchanged(snap, nm, 'name')
             elif kind == 'write':
-                v[py_name(op[1])].write(data_of(op[2]), op[3])
+                nm = self._name_arg(op[1]); snap = repr(nm)
+                info = v[nm]
+                data, after = self._data_arg(data_of(op[2]))
+                try:
+                    if self.forms.get('pos'):
+                        info.write(data, op[3])
+                    elif op[3] is None and self.forms.get('omit'):
+                        info.write(data)
+                    else:
+                        info.write(data, arch_index=op[3])
+                finally:
+                    after()
+                self._unchanged(snap, nm, 'name')
             elif kind == 'del':
-                del v[py_name(op[1])]
+                nm = self._name_arg(op[1]); snap = repr(nm)
+                del v[nm]
+                self._unchanged(snap, nm, 'name')
             elif kind == 'flush':
                 v.write_dirfile()
             elif kind == 'exit':
@@ -260,7 +335,7 @@ class ImplWorld:
                 if r:
                     return 'exit-swallows-exception'
             elif kind == 'has':
-                return 'yes' if py_name(op[1]) in v else 'no'
+                return 'yes' if self._name_arg(op[1]) in v else 'no'
             else:
                 raise AssertionError(op)
         except AssertionError:
@@ -271,7 +346,7 @@ class ImplWorld:
 
 
 def run_impl(case):
-    with ImplWorld(case['single']) as w:
+    with ImplWorld(case['single'], case.get('forms')) as w:
         return [w.step(op) for op in case['ops']]
 
 
@@ -399,8 +474,10 @@ def run_case(case, oracle=True, capture=0, hist=None):
     dirs = []
     spec = Spec() if oracle and not any(op[0] == 'plant' for op in case['ops']) else None
     ro_disk = None
-    with ImplWorld(case['single']) as w:
+    with ImplWorld(case['single'], case.get('forms')) as w:
         for n, op in enumerate(case['ops']):
+            if w.form_fail:
+                fails.append(('argforms', w.form_fail, n)); w.form_fail = None
             want = spec.step(op, get_parts) if spec else None
             if op[0] == 'check':
                 obs = w.observe(full=True)
@@ -646,4 +723,15 @@ def gen_case(rng, max_ops=25, collide_p=0.04):
     ops.append(rng.choice([['flush'], ['exit', False]]))
     ops.append(['open', 'r', rng.choice(LIMITS)])
     ops.append(['check'])
-    return {'single': single, 'ops': ops}
+    case = {'single': single, 'ops': ops}
+    if rng.random() < 0.5:
+        case['forms'] = gen_forms(rng)
+    return case
+
+
+def gen_forms(rng):
+    """a random way of handing over the same arguments (all accepted by the code as it is today)"""
+    return {'path': rng.choice(['str', 'Path', 'PathLike']), 'mode': rng.choice(['str', 'enum']),
+            'data': rng.choice(['bytes', 'bytearray']), 'names': rng.choice(['tuple', 'list']),
+            'pos': rng.random() < 0.3, 'omit': rng.random() < 0.5}
+
